@@ -356,3 +356,44 @@ def run(ctx):  # noqa: F811
     m = ctx.model
     Dom = m.cls(*DOM)
     r08_5(ctx, m, [c for c in m.subclasses(Dom) if not c.local])
+
+
+def r08_6(ctx, m):
+    """power space: the non-empty-bin test covers every bin the bounds describe, before anything is cached"""
+    from ..terms import inline_at
+    P = m.cls(*PS)
+    pi = P.methods["__init__"]
+    ctx.rule("R08.6", "PowerSpace: bin populations are counted for all len(bounds)+1 bins (bincount with that minlength) and the "
+                      "constructor raises on an empty bin before the binning is cached", floor=2)
+    cfg = cfg_of(pi)
+    rd = cfg.reaching_defs(pi.params())
+    bcs = [(n, c) for n, c in find_nodes(cfg, lambda q: isinstance(q, ast.Call) and call_name(q) == "bincount" and not any(k.arg == "weights" for k in q.keywords))]
+    key = f"{pi.key}::population count spans len(bounds)+1 bins"
+    if len(bcs) != 1:
+        ctx.und("R08.6", key, f"{len(bcs)} unweighted bincount calls", pi)
+        return
+    n, c = bcs[0]
+    ml = [k.value for k in c.keywords if k.arg == "minlength"]
+    good = False
+    det = "no minlength: bins above the largest occupied one are not counted, so an empty upper bin goes unnoticed"
+    if ml:
+        e = inline_at(cfg, rd, n.id, ml[0], depth=1)
+        det = src(e)
+        good = isinstance(e, ast.BinOp) and isinstance(e.op, ast.Add) and {src(e.left), src(e.right)} >= {"1"} and "len(" in src(e)
+    ctx.check("R08.6", key, good, det, pi, c)
+    rho = n.ast.targets[0].id if isinstance(n.ast, ast.Assign) and isinstance(n.ast.targets[0], ast.Name) else None
+    tests = [t for t in cfg.nodes if t.kind == "test" and rho and f"({rho} == 0).any()" in src(t.ast)]
+    stores = [x for x in cfg.nodes if x.kind == "stmt" and isinstance(x.ast, ast.Assign) and isinstance(x.ast.targets[0], ast.Subscript)
+              and "_powerIndexCache" in src(x.ast.targets[0])]
+    dom = cfg.dominators()
+    okk = len(tests) == 1 and bool(stores) and all(tests[0].id in dom[x.id] for x in stores) and \
+        cfg.raise_exit.id in cfg.reachable([b for b, l in cfg.succ[tests[0].id] if l == "T"])
+    ctx.check("R08.6", f"{pi.key}::raises on an empty bin before caching", okk, None, pi)
+
+
+_run_c08b = run
+
+
+def run(ctx):  # noqa: F811
+    _run_c08b(ctx)
+    r08_6(ctx, ctx.model)
